@@ -151,6 +151,24 @@ func RouteSpecs(thorough bool) []*spec.Spec {
 		)}}
 		out = append(out, withCell(spec.One("route_delete_query", f), "route/unit=delete_with_query_only", "extended", "valid", "route"))
 	}
+	// I: body verbs whose request fields are all bound to the URL (action-style RPCs), and body verbs with an empty request
+	{
+		f := &spec.File{Messages: out1(
+			spec.M("JobRef", spec.F("job_id", "string")),
+			spec.M("JobRetry", spec.F("job_id", "string"), spec.F("force", "bool").Q("force")),
+			spec.M("JobNote", spec.F("job_id", "string"), spec.F("note", "string")),
+			spec.M("Nothing"),
+		), Services: []*spec.Service{spec.Svc("JobService", "/api/v1",
+			spec.RPC("CancelJob", "JobRef", "Out", "POST", "/jobs/{job_id}/cancel"),
+			spec.RPC("RetryJob", "JobRetry", "Out", "PUT", "/jobs/{job_id}/retry"),
+			spec.RPC("TouchJob", "JobRef", "Out", "PATCH", "/jobs/{job_id}"),
+			spec.RPC("AnnotateJob", "JobNote", "Out", "POST", "/jobs/{job_id}/note"),
+			spec.RPC("PingJobs", "Nothing", "Out", "POST", "/jobs/ping"),
+			spec.RPC("GetJob", "JobRef", "Out", "GET", "/jobs/{job_id}"),
+			spec.RPC("DropJob", "JobRef", "Out", "DELETE", "/jobs/{job_id}"),
+		)}}
+		out = append(out, withCell(spec.One("route_url_bound_body_verbs", f), "route/unit=url_bound_body_verbs", "extended", "valid", "route"))
+	}
 	// H: files whose only URL-related feature is a query-annotated field on a body verb (one file per verb)
 	for _, verb := range []string{"POST", "PATCH", "PUT"} {
 		f := &spec.File{Messages: out1(spec.M("SearchReq", spec.F("q", "string").Q("q"), spec.F("limit", "int32").Q("limit"), spec.F("note", "string"))),
